@@ -24,4 +24,26 @@ PROPS = {
         "level_note": "Model is hand-written (coq/Svob.v, coq/Trie.v); Rust code is modelled, not verified; assurance = "
                       "min(theorems, correspondence). Tokenizer-adapter clause: see DESIGN.md.",
     },
+    "C17": {
+        "runner": "RunFfi",
+        "theorems": ["C17_par_copy_reads_inside_mask", "C17_par_copy_fills_buffer", "C17_par_copy_bits",
+                     "C17_par_copy_no_id_above_vocab", "C17_par_copy_stop_bit", "C17_mask_into_exact",
+                     "C17_mask_into_rejects_other_sizes", "C17_ff_copy_in_bounds", "C17_bit_length_variant_refuted"],
+        "rule": "random CFG x vocabulary sizes around multiples of 32 x histories; at every step the C functions "
+                "(llg_compute_mask, llg_par_compute_mask into a canary-guarded buffer of 0..mask+3 words, llg_commit_token, "
+                "llg_matcher_*) are called in lock-step with the Rust API; model cases = the word arithmetic "
+                "(par_copy / mask_into / ff_copy / token guard) on the very masks the engine produced. "
+                "non-trivial = destination length > 0 or a real mask",
+        "trusted_base": ["modelled, not verified: parser/src/ffi_par.rs:54-91, ffi.rs mask_into / ff_tokens copies; "
+                         "the translator bin/gen_params.py maps the num_copied expression of ffi_par.rs to PAR_COPY_USES_BITLEN",
+                         "not exhibited by the model: the physical out-of-bounds access (observed only through garbage bits / canaries)"],
+        "assumptions": ["Rust API (Constraint / Matcher) is the reference for what the C API must return"],
+        "level_text": "Theorems for every mask, vocabulary size, destination length, stop flag: the parallel mask copy reads only "
+                      "inside the engine's mask, fills exactly the caller's buffer, sets only bits of real token ids (+EOS on stop); "
+                      "compute_mask_into accepts exactly the advertised size. The expression that decides how many words are copied "
+                      "is re-extracted from ffi_par.rs on every run (translator), and C functions are compared with the Rust API "
+                      "in lock-step on random grammars/histories.",
+        "level_note": "The theorem is about the word arithmetic (model); the actual memory access is not exhibited by the model. "
+                      "C-vs-Rust agreement of commit/validate/rollback/ff tokens is differential (implementation-only predicate), not proved.",
+    },
 }
